@@ -554,7 +554,7 @@ func R22() Rule {
 					if !ci.IsFunc("os", "Remove") || !inLoop(ci.Instr.Block()) {
 						continue
 					}
-					strict, loose := false, false
+					strict, loose, rootBound := false, false, false
 					for _, fct := range core.FactsAt(ci.Instr.Block()) {
 						l, op, r, isCmp := cmpNorm(fct)
 						if !isCmp {
@@ -564,6 +564,24 @@ func R22() Rule {
 						if la != nil && ra != nil {
 							// which side is the bucket directory (a content path built without an object name)?
 							lb, rb := contentPath(P, la, nil), contentPath(P, ra, nil)
+							// a bound taken from the store's root directory instead (no bucket in it)
+							isRoot := func(v ssa.Value, isContent bool) bool {
+								return !isContent && flowsFrom(P, v, func(x ssa.Value) bool {
+									ld, ok := x.(*ssa.UnOp)
+									if !ok || ld.Op != token.MUL {
+										return false
+									}
+									fa, ok := ld.X.(*ssa.FieldAddr)
+									if !ok {
+										return false
+									}
+									_, fname, _ := core.FieldName(fa)
+									return fname == "gcsDir"
+								}, map[ssa.Value]bool{}, 0)
+							}
+							if isRoot(la, lb) || isRoot(ra, rb) {
+								rootBound = true
+							}
 							if lb == rb {
 								continue
 							}
@@ -587,6 +605,8 @@ func R22() Rule {
 					}
 					if strict {
 						c.Ok("R22", "filestore.Delete/pruning-stops-below-the-bucket", ci.Instr.Pos(), true, "directory removal is guarded by a strict comparison with the bucket directory")
+					} else if rootBound {
+						c.Bad("R22", "filestore.Delete/pruning-stops-below-the-bucket", ci.Instr.Pos(), "the loop that prunes emptied directories is bounded by the store's root directory, not by the bucket directory: deleting a bucket's last object removes the (now empty) bucket directory too, and the bucket vanishes from the file store while the memory store keeps it")
 					} else if loose {
 						c.Bad("R22", "filestore.Delete/pruning-stops-below-the-bucket", ci.Instr.Pos(), "the loop that prunes emptied directories may also remove the bucket directory (non-strict bound): deleting a bucket's last object deletes the bucket in the file store but not in the memory store")
 					}
